@@ -5,7 +5,7 @@ from __future__ import annotations
 import re
 
 from harness import project
-from harness.rowtrace import norm_obs_expr, norm_src_expr
+from harness.rowtrace import norm_obs_expr_lit as norm_obs_expr, norm_src_expr_lit as norm_src_expr
 
 DATASET = {"valid": "people", "reserved_prefix": "__people", "period": "peo.ple", "digit_first": "1people", "space": "peo ple"}
 PROP = {"valid": None, "name": "name", "Label": "Label", "reserved_prefix": "__p", "digit_first": "1p", "space": "p q"}
@@ -16,10 +16,11 @@ SITE_PATH = {"top": ["t1"], "group": ["g1", "t2"], "repeat": ["r1", "t3"], "grou
 def build(case):
     refs = case["refs"]
     expr = {
+        # (cells of the entities sheet are not whitespace-cleaned: runs of blanks inside string literals are data)
         "id": "${q0}" if refs else "'uuid:abc'",
-        "cr": "${q0} = 'c'" if refs else "true()",
-        "up": "${q0} = 'u'" if refs else "1 = 1",
-        "lab": "concat('L ', ${q0})" if refs else "'plain label'",
+        "cr": "${q0} = 'c  d'" if refs else "true()",
+        "up": "${q0} = 'u'" if refs else "'a  b' = 'a  b'",
+        "lab": "concat('L   ', ${q0})" if refs else "'plain  label'",
     }
     rows = [
         {"type": "text", "name": "q0", "label": "Q0"},
